@@ -8,11 +8,14 @@ check("C08", "model_checking",
       "in the file, in every order of {annotated definition, the type, another type mentioning it through tuple / list / fn / generic-argument "
       "positions}, with a call that needs the precise type; M: qualified type names - namespace, alias, chains through other files and folders, "
       "re-exports, from-imports, rooted paths, generic qualified types - at every site kind in main and in imported files of in-memory "
-      "multi-file projects). The harness compiles "
+      "multi-file projects; O (SyltAnnotOrd): positional type arguments - generic blobs / enums with 2-3 type variables in every declaration order "
+      "and every order of mention in the fields / variants, applied to every tuple of argument types at every site kind, nested in list / generic / "
+      "itself, as field / payload type of other declarations, applied to the type variables of a generic function, with a second use at the "
+      "reversed tuple). The harness compiles "
       "every erasure variant; MC_AnnotVal validates the records: TLC asserts that each record covers the spec's mask universe (every subset of the "
       "program-specific sites when there are <= 8/6 - always for the families -, plus all-on, all-off, every single site on/off and every prefix "
       "erased over all sites) and that all variants are accepted with one and the same Lua digest. Bounded: quick = 600 P + 700 G + all 136 S + "
-      "134 F + 300 L + 300 M programs (seeded), thorough = all ~15.6k + 15k programs.",
+      "134 F + 300 L + 300 M + 400 O programs (seeded), thorough = all ~15.6k + 23.8k programs.",
       "Trusted: TLC, SyltAnnot's definition of a site (variable definitions whose value is not a function literal, parameters of non-function "
       "type that are not needed to type a call made through them, return types of value-returning functions), the well-typedness by construction "
       "of the generated programs (the all-annotated variant being accepted is part of what is checked), the printer (its site count is "
